@@ -6,6 +6,7 @@ import (
 	"flag"
 	"fmt"
 	"os"
+	"path/filepath"
 	"runtime"
 	"strconv"
 	"strings"
@@ -269,5 +270,27 @@ func apiReplay(args []string) int {
 	}
 	w.Flush()
 	o.Close()
+	return 0
+}
+
+func init() { commands["dkg-abstract"] = dkgAbstract }
+
+// dkg-abstract: raw traces of the repository's own DKG tests (hook verifTraceDKG) -> abstract per-instance traces
+func dkgAbstract(args []string) int {
+	fs := flag.NewFlagSet("dkg-abstract", flag.ExitOnError)
+	dir := fs.String("dir", "", "")
+	out := fs.String("out", "", "output directory: one <kind>-<n>-<t>.ndjson per configuration")
+	fs.Parse(args)
+	trs, err := dkgsim.AbstractRepoTraces(*dir)
+	if err != nil {
+		fmt.Fprintln(os.Stderr, err)
+		return 2
+	}
+	for key, tr := range trs {
+		if err := writeJSONLines(filepath.Join(*out, key+".ndjson"), tr.Events); err != nil {
+			fmt.Fprintln(os.Stderr, err)
+			return 2
+		}
+	}
 	return 0
 }
